@@ -1,5 +1,6 @@
 """C03 — no public operation panics or reports an internal assertion failure (inventory + guards)."""
 import json
+import re
 import os
 from ._std import *
 from .. import mirq as M
@@ -75,7 +76,7 @@ def guard_holds(fx, rs, fn_suffix, guard, kernel, want):
 
 
 R9_CONTROL_BAD = {"bad_add", "bad_scale", "bad_index", "bad_abs", "bad_dependent"}
-R9_CONTROL_GOOD = {"good_add", "good_scale", "good_index", "good_loop", "good_dependent", "good_narrow"}
+R9_CONTROL_GOOD = {"good_add", "good_scale", "good_index", "good_loop", "good_dependent", "good_narrow", "good_flag", "good_flag_int"}
 
 
 def r9(run, fx):
@@ -209,6 +210,21 @@ def main(tier):
     used = set()
     guard_cache = {}
     index_fns = {}
+    # a reviewed construct that moved between a function and its own closures (a closure flattened into its parent, a
+    # block wrapped into a closure) keeps its review: entries of the same function family and kind whose exact site no
+    # longer exists are handed, in order, to constructs of that family and kind that have no entry of their own
+    fam = lambda p: re.sub(r"(::\{closure#\d+\})+$", "", p)
+    present = {"%s/%s#%d" % (f.path, kd, o) for f, kd, o, _, _ in inv}
+    orphans = {}
+    for k in sorted(review):
+        if k not in present and "/" in k:
+            pth, rest = k.rsplit("/", 1)
+            orphans.setdefault((fam(pth), rest.split("#", 1)[0]), []).append(k)
+    adopted = {}
+    for f, kind, ordinal, line, node in inv:
+        k = "%s/%s#%d" % (f.path, kind, ordinal)
+        if k not in review and orphans.get((fam(f.path), kind)):
+            adopted[k] = orphans[(fam(f.path), kind)].pop(0)
     for f, kind, ordinal, line, node in inv:
         key = "%s/%s#%d" % (f.path, kind, ordinal)
         loc = "%s:%s" % (f.file, line)
@@ -232,6 +248,9 @@ def main(tier):
                           "index into a list without a dominating length check in %s" % f.name, loc)
                 continue
         ent = review.get(key)
+        if ent is None and key in adopted:
+            ent = review[adopted[key]]
+            used.add(adopted[key])
         if ent is None and (kind == "bounds" or (kind == "index" and _indexes_fixed_array(node, f))):
             # an unreviewed `a[i]` / `ARRAY[a..b]` on a fixed-size array: R9 treats it like every other assertion site -
             # proved (discharged), reported by R9 itself when a caller-controlled index can reach the length, or left
